@@ -6,24 +6,93 @@
 2. (A) every stream of that same space (alphabet exported by the TLC run) is
    rendered to concrete text, fed to the real ``TAPParser`` line by line, and
    the recorded per-line events are judged by ``TraceTAP`` (TLC).
-3. (B) long random streams (bigger numbers, YAML-heavy) through the real
-   ``TAPParser`` and through ``TestRunTAP`` (whole-test verdict with exit
-   status), judged by the same trace spec; arbitrary text must never raise.
+3. (B) long random streams (numbers of every magnitude class, YAML-heavy)
+   through the real ``TAPParser`` and through ``TestRunTAP`` (whole-test
+   verdict for every exit status of the model's ``ExitDomain``), judged by the
+   same trace spec; arbitrary text must never raise.
+4. The verdict product: every stream of <= 2 lines, the number streams, the
+   random streams and the class witnesses exported by the model, each with every
+   exit status of ``ExitDomain`` (0, 1, 2, 77, 99, 126, 127, 255, signals)
+   through ``TestRunTAP.parse`` + ``complete``; the witnesses x exit statuses
+   also as real ``protocol: 'tap'`` tests of a ``--backend=none`` project run by
+   ``meson test`` (result read from ``testlog.json``).
+
+Numbers are abstract (TAP.tla: magnitude class * Scale + offset); this module
+renders them to numerals (string arithmetic only: CPython refuses to convert
+integers of more than 4300 digits to text) and projects the integers of the
+real events back.
 """
 from __future__ import annotations
 
 import asyncio
-import itertools
 import json
+import os
 import random
+import subprocess
 import sys
+import time
 import typing as T
-from concurrent.futures import ProcessPoolExecutor
+from concurrent.futures import ProcessPoolExecutor, ThreadPoolExecutor
 
 from . import common
 from .common import Check, MachineryError, SPECS, run_tlc, scratch
 
 PROP = 'C18'
+
+
+# ---------------------------------------------------------------------------
+# abstract numbers (TAP.tla: Num(c, o) = c * Scale + o means Base(c) + o)
+
+SCALE = 10_000_000
+HALF = SCALE // 2
+_SMALL_BASES = {0: 0, 1: 2 ** 31, 2: 2 ** 63, 3: 10 ** 20}
+_POW10 = {4: 4299, 5: 4300, 6: 4999}
+_BASES = [0, 2 ** 31, 2 ** 63, 10 ** 20, 10 ** 4299, 10 ** 4300, 10 ** 4999]
+CLASS_NAMES = ['', '2^31', '2^63', '1e20', '1e4299', '1e4300', '1e4999']
+
+
+def num_class(code: int) -> T.Tuple[int, int]:
+    c = (code + HALF) // SCALE
+    return c, code - c * SCALE
+
+
+def P(c: int, o: int = 0) -> int:
+    return c * SCALE + o
+
+
+def numeral(code: int, z: int = 0) -> str:
+    """abstract number -> decimal numeral, padded with leading zeros to width z."""
+    c, o = num_class(code)
+    if c in _SMALL_BASES:
+        v = _SMALL_BASES[c] + o
+        if v < 0:
+            raise MachineryError(f'negative abstract number {code}')
+        txt = str(v)
+    else:
+        k = _POW10[c]
+        if o >= 0:
+            txt = '1' + str(o).zfill(k)
+        else:
+            m = len(str(-o))
+            txt = '9' * (k - m) + str(10 ** m + o).zfill(m)
+    return txt.zfill(z)
+
+
+def code_of(v: T.Any) -> int:
+    """integer of a real event -> abstract number (-2: not an integer, -3: outside every class)."""
+    if not isinstance(v, int) or isinstance(v, bool):
+        return -2
+    for c, b in enumerate(_BASES):
+        o = v - b
+        if (0 <= o < HALF) if c == 0 else (-HALF < o < HALF):
+            return c * SCALE + o
+    return -3
+
+
+def show_num(code: int, z: int) -> str:
+    c, o = num_class(code)
+    s = str(o) if c == 0 else CLASS_NAMES[c] + (f'{o:+d}' if o else '')
+    return s + (f'z{z}' if z else '')
 
 
 # ---------------------------------------------------------------------------
@@ -35,8 +104,8 @@ def render(ln: T.Dict[str, T.Any], rnd: random.Random) -> T.Tuple[str, str]:
     name = ''
     if k == 'test':
         txt = 'ok' if ln['a'] == 1 else 'not ok'
-        if ln['n']:
-            txt += rnd.choice([' ', '  ']) + str(ln['n'])
+        if ln['n'] or ln['z']:
+            txt += rnd.choice([' ', '  ']) + numeral(ln['n'], ln['z'])
         name = rnd.choice(['', '- desc', 'some words here', '- it works: really', "-quote's"])
         if name:
             txt += ' ' + name
@@ -48,7 +117,7 @@ def render(ln: T.Dict[str, T.Any], rnd: random.Random) -> T.Tuple[str, str]:
         else:
             txt += rnd.choice(['', '', ' ', ' # just a note', ' # skipping is not a directive here'.replace('skipping', 'xskip')])
     elif k == 'plan':
-        txt = f'1..{ln["a"]}'
+        txt = '1..' + numeral(ln['a'], ln['z'])
         d = ln['d']
         if d == 'skip':
             txt += rnd.choice([' # SKIP', ' # skip everything', '# Skipped'])
@@ -59,19 +128,23 @@ def render(ln: T.Dict[str, T.Any], rnd: random.Random) -> T.Tuple[str, str]:
     elif k == 'bail':
         txt = rnd.choice(['Bail out!', 'Bail out! the sky is falling', 'Bail out!   '])
     elif k == 'version':
-        txt = f'TAP version {ln["a"]}'
+        txt = 'TAP version ' + numeral(ln['a'], ln['z'])
     elif k == 'ystart':
         txt = ' ' * ln['a'] + rnd.choice(['---', '--- ', '--- # yaml'])
     elif k == 'yend':
         txt = ' ' * ln['a'] + rnd.choice(['...', '... '])
     elif k == 'ibody':
-        txt = ' ' * ln['a'] + rnd.choice(['message: "hello"', 'ok 1 - indented test', '- item', 'severity: fail', '1..3'])
+        txt = ' ' * ln['a'] + rnd.choice(['message: "hello"', 'ok 1 - indented test', '- item', 'severity: fail', '1..3',
+                                           '# Subtest: nested', 'not ok 2 - nested # TODO', 'pragma +strict',
+                                           'Bail out! nested', 'TAP version 14'])
     elif k == 'comment':
-        txt = rnd.choice(['# diagnostic', '#', '# ok 1 not a test', '#not ok'])
+        txt = rnd.choice(['# diagnostic', '#', '# ok 1 not a test', '#not ok', '# Subtest: nested', '# pragma +strict',
+                          '# 1..0', '#Bail out!'])
     elif k == 'blank':
         txt = ''
     elif k == 'unknown':
-        txt = rnd.choice(['garbage', 'Not TAP at all', '1..x', 'OK 1', 'TAP Version 13', 'bail out!', 'test 1 ok'])
+        txt = rnd.choice(['garbage', 'Not TAP at all', '1..x', 'OK 1', 'TAP Version 13', 'bail out!', 'test 1 ok',
+                          'pragma +strict', 'pragma -strict', 'Subtest: x', '2..3', '1...2', 'TAP version x'])
     else:
         raise MachineryError('unknown abstract line ' + repr(ln))
     return txt + rnd.choice(['\n', '\n', '\n', '\r\n']), name.strip()
@@ -80,22 +153,26 @@ def render(ln: T.Dict[str, T.Any], rnd: random.Random) -> T.Tuple[str, str]:
 # ---------------------------------------------------------------------------
 # projection of real events
 
+def _ev(k: str, n: int = 0, r: str = '', f: int = 0) -> T.Dict[str, T.Any]:
+    return {'k': k, 'n': n, 'r': r, 'f': f}
+
+
 def project(ev: T.Any, mt: T.Any, expect_name: str, lineno: int) -> T.Dict[str, T.Any]:
     P = mt.TAPParser
     if isinstance(ev, P.Test):
         f = 0 if ev.name == expect_name else 1
-        return {'k': 'test', 'n': ev.number, 'r': ev.result.name, 'f': f}
+        return _ev('test', code_of(ev.number), ev.result.name, f)
     if isinstance(ev, P.Plan):
-        return {'k': 'plan', 'n': ev.num_tests, 'r': '', 'f': 2 * int(bool(ev.late)) + int(bool(ev.skipped))}
+        return _ev('plan', code_of(ev.num_tests), '', 2 * int(bool(ev.late)) + int(bool(ev.skipped)))
     if isinstance(ev, P.Bailout):
-        return {'k': 'bail', 'n': 0, 'r': '', 'f': 0}
+        return _ev('bail')
     if isinstance(ev, P.Version):
-        return {'k': 'version', 'n': ev.version, 'r': '', 'f': 0}
+        return _ev('version', code_of(ev.version))
     if isinstance(ev, P.Error):
-        return {'k': 'error', 'n': 0, 'r': '', 'f': 0}
+        return _ev('error')
     if isinstance(ev, P.UnknownLine):
-        return {'k': 'unknown', 'n': 0, 'r': '', 'f': 0 if ev.lineno == lineno else 1}
-    return {'k': 'alien:' + type(ev).__name__, 'n': 0, 'r': '', 'f': 0}
+        return _ev('unknown', 0, '', 0 if ev.lineno == lineno else 1)
+    return _ev('alien:' + type(ev).__name__)
 
 
 def run_parser(mt: T.Any, lines: T.List[T.Dict[str, T.Any]], rnd: random.Random) -> T.Dict[str, T.Any]:
@@ -103,21 +180,24 @@ def run_parser(mt: T.Any, lines: T.List[T.Dict[str, T.Any]], rnd: random.Random)
     p = mt.TAPParser()
     evs = []
     texts = []
+    raised = False
     for idx, ln in enumerate(lines):
         txt, name = render(ln, rnd)
         texts.append(txt)
         try:
             got = list(p.parse_line(txt))
         except Exception as e:  # property: no input makes the parser raise
-            evs.append([{'k': 'raised:' + type(e).__name__, 'n': 0, 'r': '', 'f': 0}])
+            evs.append([_ev('raised', 0, type(e).__name__)])
+            raised = True
             break
         evs.append([project(e, mt, name, idx + 1) for e in got])
     else:
         try:
             evs.append([project(e, mt, '', 0) for e in p.parse_line(None)])
         except Exception as e:
-            evs.append([{'k': 'raised:' + type(e).__name__, 'n': 0, 'r': '', 'f': 0}])
-    return {'s': lines, 'ev': evs, 'exit': 0, 'cls': '', 'text': texts}
+            evs.append([_ev('raised', 0, type(e).__name__)])
+            raised = True
+    return {'s': lines, 'ev': evs, 'vs': [], 'text': texts, 'raised': raised}
 
 
 class _StubHarness:
@@ -125,23 +205,11 @@ class _StubHarness:
         pass
 
 
-def run_testrun(mt: T.Any, texts: T.List[str], exitcode: int) -> str:
-    """Whole-test classification through the real TestRunTAP (parse + complete)."""
-    from mesonbuild.backend.backends import TestSerialisation, TestProtocol
-    from mesonbuild.utils.core import EnvironmentVariables
-    ts = TestSerialisation('t', 'p', ['s'], ['/bin/true'], False, None, False, True, [], EnvironmentVariables(),
-                           False, None, 30, None, [], TestProtocol.TAP, 0, False, False, [], '1.0', False, '/bin/true')
-    run = mt.TestRun(ts, {}, 't', 30, True, False, False)
-    run.start(['/bin/true'])
+_TS: T.Any = None
+_LOOP: T.Optional[asyncio.AbstractEventLoop] = None
 
-    async def lines() -> T.AsyncIterator[str]:
-        for t in texts:
-            yield t
 
-    asyncio.run(run.parse(_StubHarness(), lines()))
-    run.returncode = exitcode
-    run.complete()
-    res = run.res
+def classify(mt: T.Any, res: T.Any) -> str:
     if res.is_bad():
         return 'BAD'
     if res is mt.TestResult.SKIP:
@@ -151,10 +219,52 @@ def run_testrun(mt: T.Any, texts: T.List[str], exitcode: int) -> str:
     return 'OTHER:' + res.name
 
 
+def run_testrun(mt: T.Any, texts: T.List[str], exitcode: int) -> str:
+    """Whole-test classification through the real TestRunTAP (parse + complete)."""
+    global _TS, _LOOP
+    if _TS is None:
+        from mesonbuild.backend.backends import TestSerialisation, TestProtocol
+        from mesonbuild.utils.core import EnvironmentVariables
+        _TS = TestSerialisation('t', 'p', ['s'], ['/bin/true'], False, None, False, True, [], EnvironmentVariables(),
+                                False, None, 30, None, [], TestProtocol.TAP, 0, False, False, [], '1.0', False, '/bin/true')
+    if _LOOP is None:
+        _LOOP = asyncio.new_event_loop()
+    run = mt.TestRun(_TS, {}, 't', 30, True, False, False)
+    run.start(['/bin/true'])
+
+    async def lines() -> T.AsyncIterator[str]:
+        for t in texts:
+            yield t
+
+    _LOOP.run_until_complete(run.parse(_StubHarness(), lines()))
+    run.returncode = exitcode
+    run.complete()
+    return classify(mt, run.res)
+
+
+def verdicts(mt: T.Any, case: T.Dict[str, T.Any], exits: T.Sequence[int]) -> None:
+    """Fill case['vs'] with the whole-test classification for each exit status (a fresh TestRunTAP each)."""
+    if case['raised']:
+        return
+    for x in exits:
+        try:
+            case['vs'].append({'x': x, 'c': run_testrun(mt, case['text'], x), 'r': ''})
+        except Exception as e:
+            case['vs'].append({'x': x, 'c': 'raised', 'r': type(e).__name__})
+
+
+def _exits_for(rnd: random.Random, exits: T.Sequence[int], how: str) -> T.Sequence[int]:
+    if how == 'all':
+        return exits
+    if how == 'two':
+        return [0, rnd.choice([x for x in exits if x != 0])]
+    return []
+
+
 # ---------------------------------------------------------------------------
 
-def _worker_enum(args: T.Tuple[T.List[T.Dict[str, T.Any]], int, int, int, int]) -> T.List[T.Dict[str, T.Any]]:
-    alphabet, n, lo, hi, sd = args
+def _worker_enum(args: T.Tuple[str, T.List[T.Dict[str, T.Any]], int, int, int, int, T.List[int], str]) -> T.List[T.Dict[str, T.Any]]:
+    tag, alphabet, n, lo, hi, sd, exits, how = args
     common.use_repo_meson()
     from mesonbuild import mtest as mt
     out = []
@@ -166,84 +276,140 @@ def _worker_enum(args: T.Tuple[T.List[T.Dict[str, T.Any]], int, int, int, int]) 
             idxs.append(c % k)
             c //= k
         lines = [alphabet[j] for j in idxs]
-        rnd = random.Random(sd * 1000003 + code * 7 + n)
+        rnd = random.Random(sd * 1000003 + code * 7 + n + (0 if tag == 'A' else 104729))
         case = run_parser(mt, lines, rnd)
-        case['id'] = f'A{n}:{code}'
+        case['id'] = f'{tag}{n}:{code}'
+        verdicts(mt, case, _exits_for(rnd, exits, how))
         out.append(case)
     return out
+
+
+def _L(k: str, a: int = 0, n: int = 0, d: str = 'none', z: int = 0) -> T.Dict[str, T.Any]:
+    return {'k': k, 'a': a, 'n': n, 'd': d, 'z': z}
 
 
 def _rand_stream(rnd: random.Random) -> T.List[T.Dict[str, T.Any]]:
     n = rnd.randint(3, 40)
     lines: T.List[T.Dict[str, T.Any]] = []
+    # magnitude of the numbers of this stream: mostly small; else everything sits around one big base, so that the
+    # plan / number / count comparisons happen at that magnitude; now and then one stray number of another class
+    big = rnd.random() < 0.3
+    base = P(rnd.choice([1, 2, 3, 4, 5, 5, 6]), rnd.choice([0, 0, -1, -2, 1])) if big else 0
+
+    def stray() -> int:
+        return P(rnd.choice([1, 2, 3, 4, 5, 6]), rnd.choice([-1, 0, 0, 1]))
+
+    def width(code: int) -> int:
+        r = rnd.random()
+        if r < 0.9:
+            return 0
+        if r < 0.95:
+            return rnd.choice([1, 2, 3, 5])
+        return rnd.choice([4300, 4301, 5000]) if num_class(code)[0] <= 3 else 0
+
     if rnd.random() < 0.6:
-        lines.append({'k': 'version', 'a': rnd.choice([12, 13, 13, 13, 14]), 'n': 0, 'd': 'none'})
+        v = rnd.choice([12, 13, 13, 13, 14])
+        if rnd.random() < 0.08:
+            v = rnd.choice([0, 1, stray()])
+        lines.append(_L('version', v, z=width(v)))
     planned = rnd.random() < 0.5
     ntests = rnd.randint(0, 12)
     if planned:
-        lines.append({'k': 'plan', 'a': max(0, ntests + rnd.choice([0, 0, 0, 0, -1, 1])), 'n': 0,
-                      'd': rnd.choice(['none'] * 6 + ['skip', 'todo'])})
-    num = 0
+        a = max(0, base + ntests + rnd.choice([0, 0, 0, 0, -1, 1]))
+        lines.append(_L('plan', a, d=rnd.choice(['none'] * 6 + ['skip', 'todo']), z=width(a)))
+    num = base
     while len(lines) < n:
         r = rnd.random()
         if r < 0.55:
             num += 1
             explicit = rnd.random() < 0.6
-            nn = num if rnd.random() < 0.9 else rnd.randint(1, 15)
-            lines.append({'k': 'test', 'a': rnd.choice([1, 1, 1, 0]), 'n': nn if explicit else 0,
-                          'd': rnd.choice(['none'] * 5 + ['skip', 'todo'])})
+            nn = num if rnd.random() < 0.9 else base + rnd.randint(0 if base else 1, 15)
+            if rnd.random() < 0.03:
+                nn = stray()
+            z = width(nn) if explicit else 0
+            if explicit and nn == 0 and z == 0:
+                z = 1            # an explicit `0`
+            lines.append(_L('test', rnd.choice([1, 1, 1, 0]), nn if explicit else 0, rnd.choice(['none'] * 5 + ['skip', 'todo']), z))
             if explicit:
                 num = nn
             if rnd.random() < 0.3:
                 ind = rnd.choice([1, 2])
-                lines.append({'k': 'ystart', 'a': ind, 'n': 0, 'd': 'none'})
+                lines.append(_L('ystart', ind))
                 for _ in range(rnd.randint(0, 3)):
-                    lines.append({'k': rnd.choice(['ibody', 'ibody', 'ibody', 'ystart', 'blank', 'comment', 'unknown']),
-                                  'a': rnd.choice([1, 2, 2]), 'n': 0, 'd': 'none'})
-                    if lines[-1]['k'] in ('blank', 'comment', 'unknown'):
-                        lines[-1]['a'] = 0
+                    kk = rnd.choice(['ibody', 'ibody', 'ibody', 'ystart', 'blank', 'comment', 'unknown'])
+                    lines.append(_L(kk, 0 if kk in ('blank', 'comment', 'unknown') else rnd.choice([1, 2, 2])))
                 if rnd.random() < 0.8:
-                    lines.append({'k': 'yend', 'a': 2, 'n': 0, 'd': 'none'})
+                    lines.append(_L('yend', 2))
         elif r < 0.65:
-            lines.append({'k': 'comment', 'a': 0, 'n': 0, 'd': 'none'})
+            lines.append(_L('comment'))
         elif r < 0.72:
-            lines.append({'k': 'blank', 'a': 0, 'n': 0, 'd': 'none'})
+            lines.append(_L('blank'))
         elif r < 0.78:
-            lines.append({'k': 'unknown', 'a': 0, 'n': 0, 'd': 'none'})
+            lines.append(_L('unknown'))
         elif r < 0.83:
-            lines.append({'k': rnd.choice(['ibody', 'ystart', 'yend']), 'a': 2, 'n': 0, 'd': 'none'})
+            lines.append(_L(rnd.choice(['ibody', 'ystart', 'yend']), 2))
         elif r < 0.88:
-            lines.append({'k': 'plan', 'a': rnd.randint(0, 14), 'n': 0, 'd': rnd.choice(['none'] * 4 + ['skip', 'todo'])})
+            a = base + rnd.randint(0, 14) if rnd.random() < 0.95 else stray()
+            lines.append(_L('plan', a, d=rnd.choice(['none'] * 4 + ['skip', 'todo']), z=width(a)))
         elif r < 0.91:
-            lines.append({'k': 'bail', 'a': 0, 'n': 0, 'd': 'none'})
+            lines.append(_L('bail'))
         elif r < 0.94:
-            lines.append({'k': 'version', 'a': rnd.choice([12, 13]), 'n': 0, 'd': 'none'})
+            lines.append(_L('version', rnd.choice([12, 13])))
         else:
             num += 1
-            lines.append({'k': 'test', 'a': 1, 'n': 0, 'd': 'none'})
+            lines.append(_L('test', 1))
     if not planned and rnd.random() < 0.6:
         cnt = sum(1 for ln in lines if ln['k'] == 'test')
-        lines.append({'k': 'plan', 'a': max(0, cnt + rnd.choice([0, 0, 0, -1, 1])), 'n': 0, 'd': 'none'})
+        a = max(0, (base if rnd.random() < 0.3 else 0) + cnt + rnd.choice([0, 0, 0, -1, 1]))
+        lines.append(_L('plan', a, z=width(a)))
     return lines
 
 
-def _worker_rand(args: T.Tuple[int, int, int]) -> T.List[T.Dict[str, T.Any]]:
-    lo, hi, sd = args
+def _skippy_stream(rnd: random.Random) -> T.List[T.Dict[str, T.Any]]:
+    """Streams that amount to little: only skipped subtests, `1..0` plans, diagnostics - the classes in which the
+    stream alone says SKIP and the exit status has the last word."""
+    lines: T.List[T.Dict[str, T.Any]] = []
+    if rnd.random() < 0.5:
+        lines.append(_L('version', rnd.choice([13, 13, 14])))
+    shape = rnd.choice(['allskip', 'allskip', 'plan0', 'plan0skip', 'diag', 'empty', 'oneok'])
+
+    def noise() -> T.List[T.Dict[str, T.Any]]:
+        return [_L(rnd.choice(['comment', 'blank', 'unknown', 'comment'])) for _ in range(rnd.randint(0, 2))]
+
+    if shape == 'empty':
+        return [] if rnd.random() < 0.5 else lines
+    lines += noise()
+    if shape in ('allskip', 'oneok'):
+        cnt = rnd.randint(1, 6)
+        early = rnd.random() < 0.5
+        if early:
+            lines.append(_L('plan', cnt))
+        odd = rnd.randrange(cnt) if shape == 'oneok' else -1
+        v13 = bool(lines) and lines[0]['k'] == 'version'
+        for j in range(cnt):
+            lines.append(_L('test', 1, (j + 1) if rnd.random() < 0.7 else 0, 'none' if j == odd else 'skip'))
+            if v13 and rnd.random() < 0.2:
+                lines += [_L('ystart', 2), _L('ibody', 2), _L('yend', 2)]
+            lines += noise()
+        if not early and rnd.random() < 0.7:
+            lines.append(_L('plan', cnt))
+    elif shape in ('plan0', 'plan0skip'):
+        lines.append(_L('plan', 0, d='skip' if shape == 'plan0skip' else 'none', z=rnd.choice([0, 0, 0, 2])))
+        lines += noise()
+    return lines
+
+
+def _worker_rand(args: T.Tuple[int, int, int, T.List[int]]) -> T.List[T.Dict[str, T.Any]]:
+    lo, hi, sd, exits = args
     common.use_repo_meson()
     from mesonbuild import mtest as mt
     out = []
     for j in range(lo, hi):
         rnd = random.Random(sd * 7919 + j)
-        lines = _rand_stream(rnd)
+        lines = _skippy_stream(rnd) if j % 5 == 4 else _rand_stream(rnd)
         case = run_parser(mt, lines, rnd)
         case['id'] = f'B:{j}'
-        if not any(e and e[0]['k'].startswith('raised') for e in case['ev']):
-            exitcode = rnd.choice([0, 0, 0, 1])
-            try:
-                case['cls'] = run_testrun(mt, case['text'], exitcode)
-            except Exception as e:
-                case['cls'] = 'raised:' + type(e).__name__
-            case['exit'] = exitcode
+        verdicts(mt, case, exits)
         out.append(case)
     return out
 
@@ -252,8 +418,11 @@ def _worker_fuzz(args: T.Tuple[int, int, int]) -> T.List[str]:
     lo, hi, sd = args
     common.use_repo_meson()
     from mesonbuild import mtest as mt
+    # (numerals beyond CPython's conversion limit are the business of the structured generators above, where the
+    # position of the numeral is known to the specification)
     frags = ['ok', 'not ok', ' ', '1', '..', '#', 'SKIP', 'TODO', 'Bail out!', 'TAP version ', '13', '---', '...', '\t',
-             '\x00', 'é', '  ', '9999999999999999999999', 'skip', '\r', '- ', 'x', '1..', '\\', '\x0c', '\x1f', ' ']
+             '\x00', 'é', '  ', '9999999999999999999999', 'skip', '\r', '- ', 'x', '1..', '\\', '\x0c', '\x1f', ' ',
+             '0', '00000000000000000000', 'pragma +', '# Subtest: ', '    ', '٣', '１', '-1', '+1', '1e3', '0x1f']
     bad = []
     for j in range(lo, hi):
         rnd = random.Random(sd * 31337 + j)
@@ -270,6 +439,82 @@ def _worker_fuzz(args: T.Tuple[int, int, int]) -> T.List[str]:
     return bad
 
 
+# ---------------------------------------------------------------------------
+# the class witnesses x exit statuses as real tests run by `meson test`
+
+_RUN_SH = """#!/bin/sh
+# usage: run.sh <file with the TAP stream> <exit status; negative = die of the signal named by $3>
+ulimit -c 0 2>/dev/null
+cat "$1"
+if [ "$2" -lt 0 ]; then
+    kill -s "$3" $$
+    sleep 5
+fi
+exit "$2"
+"""
+_SIGNAMES = {-6: 'ABRT', -9: 'KILL', -11: 'SEGV', -15: 'TERM'}
+
+
+def run_cli(seed: int, witnesses: T.List[T.Dict[str, T.Any]], exits: T.List[int]) -> T.Tuple[T.List[T.Dict[str, T.Any]], int, int]:
+    """One language-less project, one protocol:'tap' test per (witness stream, exit status); the classification
+    of every test is read from meson-logs/testlog.json.  Returns (cases, number of tests, exit status of meson test)."""
+    common.use_repo_meson()
+    from mesonbuild import mtest as mt
+    cases = []
+    with scratch('c18cli-') as d:
+        src = d / 'src'
+        bld = d / 'bld'
+        src.mkdir()
+        (src / 'run.sh').write_text(_RUN_SH)
+        mb = ["project('tapverdict')", "sh = find_program('/bin/sh')"]
+        rnd = random.Random(seed * 65537 + 18)
+        names: T.Dict[str, T.Tuple[T.Dict[str, T.Any], int]] = {}
+        for wi, w in enumerate(witnesses):
+            case = run_parser(mt, w['s'], rnd)
+            case['id'] = f"M:{w['cls']}:{wi}"
+            (src / f'w{wi}.tap').write_text(''.join(case['text']))
+            for x in exits:
+                if x < 0 and x not in _SIGNAMES:
+                    raise MachineryError(f'no signal name for exit status {x} of the model')
+                name = f'w{wi}x{x}'.replace('-', 'm')
+                names[name] = (case, x)
+                mb.append(f"test('{name}', sh, args: [meson.current_source_dir() / 'run.sh', "
+                          f"meson.current_source_dir() / 'w{wi}.tap', '{x}', '{_SIGNAMES.get(x, 'none')}'], "
+                          f"protocol: 'tap', timeout: 600)")
+            cases.append(case)
+        (src / 'meson.build').write_text('\n'.join(mb) + '\n')
+        env = dict(os.environ, PYTHONDONTWRITEBYTECODE='1', MESON_TESTTHREADS=str(min(32, 2 * common.NCPU)))
+        meson = [common.PYTHON, str(common.REPO / 'meson.py')]
+        p = subprocess.run(meson + ['setup', '--backend=none', str(bld), str(src)], env=env, stdout=subprocess.PIPE,
+                           stderr=subprocess.STDOUT, text=True, timeout=900)
+        if p.returncode != 0:
+            raise MachineryError('meson setup of the TAP verdict project failed:\n' + p.stdout[-1500:])
+        p = subprocess.run(meson + ['test', '-C', str(bld), '--no-rebuild'], env=env, stdout=subprocess.PIPE,
+                           stderr=subprocess.STDOUT, text=True, timeout=1800)
+        log = bld / 'meson-logs' / 'testlog.json'
+        if not log.exists():
+            raise MachineryError('meson test wrote no testlog.json:\n' + p.stdout[-1500:])
+        seen = set()
+        for line in log.read_text().splitlines():
+            rec = json.loads(line)
+            name = rec['name'].split()[-1].split(':')[-1]
+            if name not in names:
+                raise MachineryError('unexpected test in testlog.json: ' + rec['name'])
+            case, x = names[name]
+            if rec.get('returncode') != x:
+                # the environment model (how run.sh produces an exit status) disagrees: not a verdict on meson
+                raise MachineryError(f"test {name}: program was to exit with {x}, testlog.json has {rec.get('returncode')}")
+            res = rec['result']
+            cls = 'BAD' if res in ('FAIL', 'ERROR', 'TIMEOUT', 'INTERRUPT', 'UNEXPECTEDPASS') else res
+            case['vs'].append({'x': x, 'c': cls, 'r': ''})
+            seen.add(name)
+        if seen != set(names):
+            raise MachineryError(f'testlog.json lacks {len(set(names) - seen)} of {len(names)} tests:\n' + p.stdout[-1500:])
+        return cases, len(names), p.returncode
+
+
+# ---------------------------------------------------------------------------
+
 def judge(chk: Check, cases: T.List[T.Dict[str, T.Any]], label: str) -> None:
     """Validate recorded executions against the spec with TLC (TraceTAP)."""
     by_id = {c['id']: c for c in cases}
@@ -280,7 +525,7 @@ def judge(chk: Check, cases: T.List[T.Dict[str, T.Any]], label: str) -> None:
     cur_txt: T.List[str] = []
     cur_size = 0
     for c in cases:
-        t = json.dumps({k: c[k] for k in ('id', 's', 'ev', 'exit', 'cls')})
+        t = json.dumps({k: c[k] for k in ('id', 's', 'ev', 'vs')}, separators=(',', ':'))
         if cur and (cur_size + len(t) > 24_000_000 or len(cur) >= 150000):
             batches.append((cur, '[' + ','.join(cur_txt) + ']'))
             cur, cur_txt, cur_size = [], [], 0
@@ -305,90 +550,185 @@ def judge(chk: Check, cases: T.List[T.Dict[str, T.Any]], label: str) -> None:
                 bad = res1.json_lines()
         chk.add_tlc(f'TraceTAP[{label}#{part_no}]', res, model=False)
         chk.traces += len(part)
+        _PHASES[f'judge[{label}#{part_no}]'] = round(res.wall, 1)
         for v in bad:
             c = by_id.get(v['id'], {})
             sig = signature(c, v)
             chk.violation(sig, {'verdict': v, 'abstract_lines': c.get('s'), 'text': c.get('text'),
-                                'events_observed': c.get('ev'), 'exit': c.get('exit'), 'class_observed': c.get('cls')})
+                                'events_observed': c.get('ev'), 'verdicts_observed': c.get('vs')})
+
+
+def line_sig(ln: T.Dict[str, T.Any]) -> str:
+    if ln['k'] == 'test':
+        return f"test/{ln['a']}/{show_num(ln['n'], ln['z'])}/{ln['d']}"
+    if ln['k'] in ('plan', 'version'):
+        return f"{ln['k']}/{show_num(ln['a'], ln['z'])}/{ln['n']}/{ln['d']}"
+    return f"{ln['k']}/{ln['a']}/{ln['n']}/{ln['d']}"
 
 
 def signature(c: T.Dict[str, T.Any], v: T.Dict[str, T.Any]) -> str:
-    """Stable signature: clause + abstract stream up to the failing line."""
+    """Stable signature.  The parser raised: the exception, the kind of line it raised on and whether the number
+    it had to convert is within CPython's limit - not the stream (every stream with such a line raises).  Else:
+    clause (+ exit status for the verdict) + abstract stream up to the failing line."""
+    if v.get('clause') == 'NoRaise':
+        exc = ''
+        for e in v.get('got') or []:
+            if e.get('k') == 'raised':
+                exc = e.get('r', '')
+        return f"NoRaise:{exc}@{v.get('what')}"
     lines = c.get('s', [])
     upto = v.get('line') or len(lines)
-    short = ';'.join(f"{ln['k']}/{ln['a']}/{ln['n']}/{ln['d']}" for ln in lines[:upto])
-    return f"{v.get('clause')}@{short}"
+    short = ';'.join(line_sig(ln) for ln in lines[:upto])
+    clause = v.get('clause')
+    if clause == 'Verdict':
+        clause = f"Verdict/exit{v.get('x')}"
+    return f"{clause}@{short}"
+
+
+_PHASES: T.Dict[str, float] = {}
+
+
+def _mc_cfg(n: int, profile: str) -> str:
+    return ('SPECIFICATION Spec\nCONSTANTS MaxLen = %d\n MaxNum = 3\n MaxPlan = 2\n Profile = "%s"\n'
+            'INVARIANT OperationalEqualsDeclarative\nINVARIANT RunIsIncremental\nINVARIANT OneSubtestPerTestLine\n'
+            'INVARIANT BadStaysBad\nINVARIANT VerdictOverExitDomain\n%sINVARIANT TypeOK\nCHECK_DEADLOCK FALSE\n'
+            'POSTCONDITION Export\n' % (n, profile, 'INVARIANT UnrepresentableIsIgnored\n' if profile == 'numbers' else ''))
 
 
 def main(chk: Check) -> None:
     quick = chk.tier == 'quick'
     n_mc = 3 if quick else 4
     n_impl = 3 if quick else 4
+    n_num = 2 if quick else 3
     n_rand = 3000 if quick else 60000
     n_fuzz = 5000 if quick else 200000
     chk.rule = ('A: every stream of <= N abstract TAP lines over the alphabet exported by the TLC model (44 line forms), '
-                'each rendered to concrete text with a seeded choice of spelling; B: seeded random streams of 3-40 lines '
-                'incl. whole-test verdict through TestRunTAP; fuzz: arbitrary text must not raise. Non-trivial = the '
+                'each rendered to concrete text with a seeded choice of spelling; N: every stream of <= M lines over the '
+                'number alphabet (51 line forms: numbers of every magnitude class in test-number, plan and version '
+                'position); B: seeded random streams of 3-40 lines; whole-test verdict through TestRunTAP for every exit '
+                'status of the model\'s ExitDomain (A <= 2 lines, B, witnesses; two statuses for the rest) and through '
+                '`meson test` for the class witnesses x ExitDomain; fuzz: arbitrary text must not raise. Non-trivial = the '
                 'expected events contain at least one error, bail-out, plan or YAML transition (distinct abstract streams).')
-    cfg = ('SPECIFICATION Spec\nCONSTANTS MaxLen = %d\n MaxNum = 3\n MaxPlan = 2\n'
-           'INVARIANT OperationalEqualsDeclarative\nINVARIANT RunIsIncremental\nINVARIANT OneSubtestPerTestLine\n'
-           'INVARIANT BadStaysBad\nINVARIANT TypeOK\nCHECK_DEADLOCK FALSE\nPOSTCONDITION EmitAlphabet\n' % n_mc)
-    res = run_tlc(SPECS / 'tap', 'TAP_MC', cfg_text=cfg, collect=['alphabet.json'], timeout=3600,
-                  allow_violation=False, heap='8g')
-    chk.add_tlc(f'TAP_MC[MaxLen={n_mc}]', res)
+    t0 = time.time()
+    with ThreadPoolExecutor(max_workers=2) as tex:
+        f1 = tex.submit(run_tlc, SPECS / 'tap', 'TAP_MC', cfg_text=_mc_cfg(n_mc, 'lines'),
+                        collect=['alphabet.json', 'exits.json', 'witnesses.json'], timeout=3600, allow_violation=False,
+                        heap='4g' if quick else '8g')
+        f2 = tex.submit(run_tlc, SPECS / 'tap', 'TAP_MC', cfg_text=_mc_cfg(n_num, 'numbers'),
+                        collect=['alphabet.json'], timeout=3600, allow_violation=False, heap='3g' if quick else '6g')
+        res = f1.result()
+        res2 = f2.result()
+    _PHASES['model'] = round(time.time() - t0, 1)
+    chk.add_tlc(f'TAP_MC[lines,MaxLen={n_mc}]', res)
+    chk.add_tlc(f'TAP_MC[numbers,MaxLen={n_num}]', res2)
     alphabet = json.loads(res.collected['alphabet.json'])
+    numbers = json.loads(res2.collected['alphabet.json'])
+    exits = sorted(json.loads(res.collected['exits.json']), key=lambda x: (x != 0, abs(x), x))
+    witnesses = json.loads(res.collected['witnesses.json'])
+    for w in witnesses:
+        w['s'] = list(w['s'])
+    if 0 not in exits or not {77, 99, 1} <= set(exits) or not any(x < 0 for x in exits):
+        raise MachineryError('ExitDomain of the model lacks 0 / 1 / 77 / 99 / a signal: ' + repr(exits))
     chk.extra['alphabet_size'] = len(alphabet)
+    chk.extra['number_alphabet_size'] = len(numbers)
+    chk.extra['exit_domain'] = exits
+    chk.extra['class_witnesses'] = len(witnesses)
     chk.extra['model_bound_lines'] = n_mc
     chk.extra['impl_exhaustive_bound_lines'] = n_impl
+    chk.extra['number_streams_bound_lines'] = n_num
 
-    # (A) exhaustive streams through the real parser
-    k = len(alphabet)
     with ProcessPoolExecutor(max_workers=common.NCPU) as ex:
-        for n in range(0, n_impl + 1):
-            total = k ** n
-            step = max(1, min(20000, total // (common.NCPU * 2) + 1))
-            jobs = [(alphabet, n, lo, min(total, lo + step), chk.seed) for lo in range(0, total, step)]
-            cases: T.List[T.Dict[str, T.Any]] = []
-            for part in ex.map(_worker_enum, jobs):
+        # the `meson test` sample runs beside the in-process work (as a job of the pool: no thread may be alive in
+        # this process while the pool forks its workers)
+        if True:
+            t0 = time.time()
+            fcli = ex.submit(run_cli, chk.seed, witnesses, exits)
+            # (A) exhaustive streams through the real parser; the verdict for every exit status up to 2 lines
+            for tag, alpha, bound in (('A', alphabet, n_impl), ('N', numbers, n_num)):
+                k = len(alpha)
+                for n in range(0, bound + 1):
+                    t1 = time.time()
+                    total = k ** n
+                    how = 'all' if (n <= 2 and tag == 'A') else 'two'
+                    step = max(1, min(20000, total // (common.NCPU * 2) + 1))
+                    jobs = [(tag, alpha, n, lo, min(total, lo + step), chk.seed, exits, how) for lo in range(0, total, step)]
+                    cases: T.List[T.Dict[str, T.Any]] = []
+                    for part in ex.map(_worker_enum, jobs):
+                        cases.extend(part)
+                        if len(cases) >= 300000:
+                            _account(chk, cases)
+                            judge(chk, cases, f'{tag}{n}')
+                            cases = []
+                    if cases:
+                        _account(chk, cases)
+                        judge(chk, cases, f'{tag}{n}')
+                    _PHASES[f'{tag}{n}'] = round(time.time() - t1, 1)
+            # (B) random streams + verdict for every exit status
+            t1 = time.time()
+            step = max(1, n_rand // (common.NCPU * 2))
+            jobs3 = [(lo, min(n_rand, lo + step), chk.seed, exits) for lo in range(0, n_rand, step)]
+            cases = []
+            for part in ex.map(_worker_rand, jobs3):
                 cases.extend(part)
-                if len(cases) >= 300000:
-                    _account(chk, cases)
-                    judge(chk, cases, f'A{n}')
-                    cases = []
-            if cases:
-                _account(chk, cases)
-                judge(chk, cases, f'A{n}')
-        # (B) random streams + verdict
-        step = max(1, n_rand // (common.NCPU * 2))
-        jobs3 = [(lo, min(n_rand, lo + step), chk.seed) for lo in range(0, n_rand, step)]
-        cases = []
-        for part in ex.map(_worker_rand, jobs3):
-            cases.extend(part)
-        _account(chk, cases)
-        judge(chk, cases, 'B')
+            _account(chk, cases)
+            judge(chk, cases, 'B')
+            _PHASES['B'] = round(time.time() - t1, 1)
+            # the class witnesses: in-process for every exit status, and what `meson test` reported
+            t1 = time.time()
+            common.use_repo_meson()
+            from mesonbuild import mtest as mt
+            rnd = random.Random(chk.seed * 4099 + 5)
+            wcases = []
+            for wi, w in enumerate(witnesses):
+                case = run_parser(mt, w['s'], rnd)
+                case['id'] = f"W:{w['cls']}:{wi}"
+                verdicts(mt, case, exits)
+                wcases.append(case)
+            mcases, ncli, cli_exit = fcli.result()
+            _PHASES['cli_done_after'] = round(time.time() - t0, 1)
+            chk.extra['cli_tests'] = ncli
+            chk.extra['cli_meson_test_exit'] = cli_exit
+            _account(chk, wcases + mcases)
+            judge(chk, wcases + mcases, 'W')
+            chk.extra['verdict_product'] = {'in_process': sum(len(c['vs']) for c in wcases),
+                                            'meson_test': sum(len(c['vs']) for c in mcases)}
+            _PHASES['W'] = round(time.time() - t1, 1)
         # fuzz: no exception, only known event types
+        t1 = time.time()
         step = max(1, n_fuzz // (common.NCPU * 2))
         for bad in ex.map(_worker_fuzz, [(lo, min(n_fuzz, lo + step), chk.seed) for lo in range(0, n_fuzz, step)]):
             for b in bad:
                 chk.violation('raise@' + b[:200], json.loads(b))
         chk.evaluations += n_fuzz
+        _PHASES['fuzz'] = round(time.time() - t1, 1)
+    chk.extra['phase_seconds'] = dict(_PHASES)
     chk.exhaustive = True
     chk.assumptions += [
         'abstract line alphabet: indentation levels 1 and 2 only; descriptions never contain "#" before the directive',
         'error events are compared by presence and count per line, never by message text',
-        'TAP 14 subtests and pragmas are outside the statement and are not generated',
+        'TAP 14 subtests (indented streams, "# Subtest:") and pragmas: neither Unit-tests.md nor unittests/taptests.py says '
+        'what meson does with them beyond "a line that is no TAP 13 syntax is an unknown line, a # line is a diagnostic"; '
+        'they are generated only as spellings of those two classes (indented lines, "pragma +strict", "# Subtest: x"), '
+        'never as a nested stream with a verdict of its own',
         'the duplicate/missing-number rule is the end-of-stream rule "highest number differs from count"',
+        'numerals longer than the interpreter can convert (CPython: 4300 digits, PYTHONINTMAXSTRDIGITS unset): the TAP '
+        'specification is silent; the spec accepts either exact reading or "one error event, line otherwise ignored" '
+        '(consistently for the whole stream), never an exception',
+        '"okay" / "ok1" style lines (no blank after ok) are not generated: TAP leaves them open, meson reads them as test lines',
+        'the exit status of `meson test` itself is recorded (extra.cli_meson_test_exit) but not judged; the per-test '
+        'result of testlog.json is',
     ]
 
 
 def _account(chk: Check, cases: T.List[T.Dict[str, T.Any]]) -> None:
-    chk.evaluations += len(cases)
+    chk.evaluations += len(cases) + sum(len(c['vs']) for c in cases)
     for c in cases:
         flat = [e for g in c['ev'] for e in g]
         if any(e['k'] in ('error', 'bail', 'plan') for e in flat) or any(ln['k'] in ('ystart', 'yend') for ln in c['s']):
-            chk.nontriv(';'.join(f"{ln['k']}{ln['a']}{ln['n']}{ln['d']}" for ln in c['s']))
+            chk.nontriv(';'.join(f"{ln['k']}{ln['a']}{ln['n']}{ln['d']}{ln['z'] or ''}" for ln in c['s']))
     for c in cases[:: max(1, len(cases) // 3)][:3]:
-        chk.sample({'id': c['id'], 'text': c['text'], 'events': c['ev'], 'exit': c['exit'], 'class': c['cls']}, limit=9)
+        chk.sample({'id': c['id'], 'text': [x if len(x) < 200 else x[:60] + f'...({len(x)} chars)' for x in c['text']],
+                    'events': c['ev'], 'verdicts': c['vs']}, limit=9)
 
 
 def replay(chk: Check, data: T.Dict[str, T.Any]) -> None:
@@ -401,16 +741,20 @@ def replay(chk: Check, data: T.Dict[str, T.Any]) -> None:
         return
     p = mt.TAPParser()
     evs = []
-    for idx, txt in enumerate(det['text']):
-        evs.append([project(e, mt, '', idx + 1) for e in p.parse_line(txt)])
-    evs.append([project(e, mt, '', 0) for e in p.parse_line(None)])
+    raised = False
+    for idx, txt in enumerate(list(det['text']) + [None]):
+        try:
+            evs.append([project(e, mt, '', idx + 1 if txt is not None else 0) for e in p.parse_line(txt)])
+        except Exception as e:
+            evs.append([_ev('raised', 0, type(e).__name__)])
+            raised = True
+            break
     for g in evs:
         for e in g:
             if e['k'] == 'test':
                 e['f'] = 0
-    case = {'id': 'replay', 's': det['abstract_lines'], 'ev': evs, 'exit': det.get('exit', 0), 'cls': '', 'text': det['text']}
-    if det.get('class_observed'):
-        case['cls'] = run_testrun(mt, det['text'], case['exit'])
+    case = {'id': 'replay', 's': det['abstract_lines'], 'ev': evs, 'vs': [], 'text': det['text'], 'raised': raised}
+    verdicts(mt, case, [v['x'] for v in det.get('verdicts_observed') or []])
     judge(chk, [case], 'replay')
 
 
